@@ -1978,7 +1978,23 @@ class unyt_array(np.ndarray):
                             "cannot be multiplied, divided, subtracted or "
                             "added with data that has different units."
                         )
-                    inp1 = np.asarray(inp1, dtype=new_dtype) * conv
+                    if (
+                        unit_operator is _preserve_units
+                        and u1.base_offset != 0.0
+                        and u0.dimensions is temperature
+                        and conv != 1
+                    ):
+                        # a temperature difference combined with a reading on
+                        # another scale: the result is labelled with the unit of
+                        # the reading, so it is the difference that changes scale
+                        dtype0 = np.dtype("f" + str(max(2, inp0.dtype.itemsize)))
+                        if inp0.dtype.kind == "c":
+                            dtype0 = inp0.dtype
+                        inp0 = np.asarray(inp0, dtype=dtype0) * dtype0.type(
+                            u0.base_value / u1.base_value
+                        )
+                    else:
+                        inp1 = np.asarray(inp1, dtype=new_dtype) * conv
             if unit_operator in (_multiply_units, _divide_units) and (
                 u0.base_offset
                 and u0.dimensions is temperature
